@@ -63,7 +63,7 @@ def dispatchC20 : Dispatch := fun op args =>
       | "rounds" =>
         match sqrtInit a.length (val a) with
         | none => some "panic"
-        | some x0 => some s!"{hitIndex (val a) (Nat.sqrt (val a)) 100000 0 x0} {log2Bits a.length}"
+        | some x0 => some s!"{hitIndex (val a) (Nat.sqrt (val a)) 200 0 x0} {log2Bits a.length}"
       | _ => none
     | ["c20", "b", form], some a =>
       let two (l1 l0 : String) := some (l1 ++ " ;; " ++ l0)
@@ -77,7 +77,7 @@ def dispatchC20 : Dispatch := fun op args =>
         two (if r.2 then limbsHexLen r.1 else "none") (specChecked a true)
       | "checked_sqrt_vartime" => two (boxedCheckedTok (boxedCheckedSqrtVartime a)) (specChecked a true)
       | "rounds" =>
-        some s!"{hitIndex (val a) (Nat.sqrt (val a)) 100000 0 (bsqrtInit a.length (val a))} {log2Bits a.length}"
+        some s!"{hitIndex (val a) (Nat.sqrt (val a)) 200 0 (bsqrtInit a.length (val a))} {log2Bits a.length}"
       | _ => none
     | _, _ => none
   | _ => if op.startsWith "c20." then badArgs else none
